@@ -80,7 +80,7 @@ def run_config(pid, hname, cfg, tier, seed, opts):
     hopts = mod.HARNESSES[hname]
     pkg = sym_pkg()
     rng = random.Random(hash((seed, json.dumps(cfg, sort_keys=True))) & 0xffffffff)
-    core.TIMEOUT_MS[0] = hopts.get('query_timeout_ms', 20000 if tier == 'quick' else 120000)
+    core.TIMEOUT_MS[0] = hopts.get('query_timeout_ms', 60000 if tier == 'quick' else 180000)
     q0, s0, u0 = core.STATS.queries, core.STATS.solver_s, core.STATS.unknown
     res = {'harness': hname, 'cfg': cfg, 'paths': 0, 'obligations': 0, 'discharged': 0, 'normal_form': 0,
            'trivial': 0, 'candidates': [], 'inconclusive': [], 'validation': {'cases': 0, 'disagreements': 0},
@@ -186,7 +186,7 @@ def run_config(pid, hname, cfg, tier, seed, opts):
                 res['samples'].append({'harness': hname, 'cfg': cfg, 'path': res['paths'], 'obligation': name, 'verdict': status})
 
     signal.signal(signal.SIGALRM, _alarm)
-    signal.alarm(int(hopts.get('config_timeout_s', 120 if tier == 'quick' else 900)))
+    signal.alarm(int(hopts.get('config_timeout_s', 400 if tier == 'quick' else 1800)))
     try:
         core.explore(body, max_paths=hopts.get('max_paths', 3000), on_path=on_path)
     except Timeout:
@@ -278,7 +278,7 @@ def run_pool(tasks, jobs, mod, tier):
             p.start()
             pw.close()
             h = mod.HARNESSES[task[1]]
-            limit = h.get('config_timeout_s', 120 if tier == 'quick' else 900) + 45
+            limit = h.get('config_timeout_s', 400 if tier == 'quick' else 1800) + 90
             running[pr] = (p, idx, task, time.time() + limit)
         ready = wait(list(running), timeout=1.0)
         for conn in ready:
